@@ -227,6 +227,45 @@ def run_nnd_pair(cfg, low_memory):
     return impl, line, (X, tab, ind, dst, init_copy)
 
 
+def check_leaf_updates(res, rng, n_cases):
+    """the TRANSLATED generate_leaf_updates (Gen/Kernels.lean, run by the driver with dist = squared euclidean in float32)
+    against the numba kernel on the same leaf block / thresholds / data, list for list and bit for bit (translator validation)"""
+    for c in range(n_cases):
+        n = int(rng.choice([3, 6, 15, 40])); dim = int(rng.choice([1, 2, 3])); m = int(rng.choice([1, 2, 5])); w = int(rng.choice([1, 2, 4, 7]))
+        X = gen_int_data(rng, n, dim, spread=int(rng.choice([1, 3])))
+        leaf = np.full((m, w), -1, dtype=np.int32)
+        for r in range(m):
+            cnt = int(rng.integers(0, w + 1))
+            leaf[r, :cnt] = rng.choice(n, size=cnt, replace=bool(cnt > n)) if cnt else []
+            if cnt and rng.random() < 0.3:
+                leaf[r, int(rng.integers(0, cnt))] = -1          # a hole inside the row: both loops must stop there
+        th = rng.choice(np.array([0.0, 1.0, 2.0, 5.0, np.inf], dtype=np.float32), n).astype(np.float32)
+        real = pm.generate_leaf_updates(leaf, th, X, pd.squared_euclidean)
+        want = " , ".join(" ".join("%d %d %d" % (int(p), int(q), f32bits(d)) for (p, q, d) in row) for row in real)
+        got = run_driver([" ".join(("gk_leafupd %d %d %d %d | %s | %s | %s" % (m, w, n, dim, ints_row(leaf.ravel()), bits_row(th), bits_row(X))).split())])[0]
+        res.count("translated:generate_leaf_updates")
+        if " ".join(got.split()) != " ".join(want.split()):
+            res.corr_fail("translated-kernel:generate_leaf_updates", {"leaf": leaf.tolist(), "th": [float(x) for x in th], "X": X.tolist()}, got[:300], want[:300])
+
+
+def check_graph_updates(res, rng, n_cases):
+    """the TRANSLATED generate_graph_updates (the local join) against the numba kernel, list for list and bit for bit"""
+    for c in range(n_cases):
+        n = int(rng.choice([3, 6, 15, 40])); dim = int(rng.choice([1, 2, 3])); m = int(rng.choice([1, 2, 5])); w = int(rng.choice([1, 2, 4, 6]))
+        X = gen_int_data(rng, n, dim, spread=int(rng.choice([1, 3])))
+        nb = rng.integers(0, n, size=(m, w)).astype(np.int32); ob = rng.integers(0, n, size=(m, w)).astype(np.int32)
+        nb[rng.random((m, w)) < 0.3] = -1; ob[rng.random((m, w)) < 0.3] = -1
+        th = rng.choice(np.array([0.0, 1.0, 2.0, 5.0, np.inf], dtype=np.float32), n).astype(np.float32)
+        real = pm.generate_graph_updates(nb, ob, th, X, pd.squared_euclidean)
+        want = " , ".join(" ".join("%d %d %d" % (int(p), int(q), f32bits(d)) for (p, q, d) in row) for row in real)
+        got = run_driver([" ".join(("gk_graphupd %d %d %d %d | %s | %s | %s | %s" % (m, w, n, dim, ints_row(nb.ravel()), ints_row(ob.ravel()),
+                                                                                 bits_row(th), bits_row(X))).split())])[0]
+        res.count("translated:generate_graph_updates")
+        if " ".join(got.split()) != " ".join(want.split()):
+            res.corr_fail("translated-kernel:generate_graph_updates", {"new": nb.tolist(), "old": ob.tolist(), "th": [float(x) for x in th], "X": X.tolist()},
+                          got[:300], want[:300])
+
+
 def check_init_kernels(res, rng, n_cases):
     """initalize_heap_from_graph_indices, ..._and_distances, init_from_neighbor_graph vs the model, bit-exact"""
     for c in range(n_cases):
